@@ -12,9 +12,15 @@
              'full_rune) and proved equal, for every split of the stream into reads, to utf8.DecodeRune on '
              'the whole stream (bom_split_across_reads); UnreadRune = put the rune back; I/O errors of the '
              'source are out of scope here (C16); validated with one-byte, data+EOF and random chunk readers',
-             'long inputs (non-ASCII bytes at and across every offset around k*4096, the size of the bufio.Reader '
-             'inside ios.StripBOM and of x/text\'s transform buffers) are compared as streams for all three '
-             'encodings with a small-read and a ReadAll consumer, and as Read transcripts for the formats',
+             'long inputs (non-ASCII bytes at and across every offset around k*4096, the size of the '
+             "bufio.Reader inside ios.StripBOM and of x/text's transform buffers) are compared as streams "
+             'for all three encodings with a small-read and a ReadAll consumer, and as Read transcripts for '
+             'the formats',
              'the format readers are not modelled here: equality of Read transcripts is decided on the Go '
-             'side (transcript(bytes, X) == transcript(utf8_of_X(bytes), utf-8)) for the seven formats'],
+             'side (transcript(bytes, X) == transcript(utf8_of_X(bytes), utf-8)) for the seven formats',
+             'round-3 classes: XML documents carrying their own prolog encoding label under every '
+             'parser_settings.encoding; long inputs with a pure-ASCII head of k*4096(+0..8) bytes and the '
+             'first byte >= 0x80 only later (up to the last byte); two transforms of one encoding alive at '
+             'the same time (same Schema / two Schemas, random switch points) must each give their solo '
+             'transcript'],
  'assumptions': []}
